@@ -324,6 +324,9 @@ def check(ctx):
     # the char match
     tb = iff["then"]
     ms = [n for n in walk(tb, into_closures=False) if n.get("k") == "Match" and n.get("src") == "Normal" and strip(n["scrut"]).get("id") == ch_id]
+    # a match on the character inside an arm of the match on the character belongs to that arm
+    nested = {id(x) for m_ in ms for a_ in m_["arms"] for x in walk(a_["body"], into_closures=False) if any(x is y for y in ms)}
+    ms = [m_ for m_ in ms if id(m_) not in nested]
     if len(ms) != 1:
         ctx.bad("C15.3", "missing-anchor/char-match", site(lp), "expected one match on the loop character, found %d" % len(ms))
         return
